@@ -89,7 +89,7 @@ def handle_bad(ctx, binp, drv, cases, bad, max_reports=2):
         header, ops = by_id[cid]
         small, smsg = vf.shrink_case(
             ctx, binp, drv, header, ops, kind, env=_env(ctx), budget=60,
-            protect=lambda o: o.startswith(("MNEW", "FINAL")),
+            protect=lambda o: ("MNEW" in o.split()[:2]) or ("FINAL" in o.split()[:2]),
             accept=lambda m2, c=cls: msg_class(m2) == c[1])
         if smsg is None and cls[1].startswith("manager lifetime"):
             # The only timing-dependent observable (thread start / exit under load): it has to
